@@ -480,7 +480,7 @@ class SkeletonStrings(Skeletons):
 
 
 SHARED_NAMES = ["a", "b", "x1", "foo", "_t", "order", "android", "nothing", "iffy", "elsewhere", "e",
-                "E5", "j", "d", "i", "Tru", "T", "in_", "x_y", "A"]
+                "E5", "j", "d", "i", "Tru", "T", "in_", "x_y", "A", "Trueish", "False_", "Truex"]
 SHARED_INTS = ["0", "1", "7", "10", "42", "1000000", "12345678901234567890"]
 SHARED_FLOATS = ["1.5", "0.5", "2.", ".5", "1e5", "1E5", "1.5e-3", "1e+5", "0.0", "10.25", "3.e2",
                  "1e-07", "6.02e23", "12.", ".125"]
@@ -623,6 +623,19 @@ class LexShared(Stream):
         if python_tokens(pl["text"]) == pl["toks"]:
             acc["shared"] = acc.get("shared", 0) + 1
 
+
+def probe_true_prefix():
+    """the repaired `True` / `False` rules without `\\b` (fixed: a VIOLATION if the defect returns)"""
+    import pytools.lex
+    from pymbolic.parser import Parser
+    out = []
+    for s in ("Trueish", "a + Falsehood", "f(True, Falsex)"):
+        got = [x for t, x, _ in pytools.lex.lex(Parser.lex_table, s) if t != "whitespace"]
+        want = python_tokens(s)
+        out.append(("lex-differs-from-python:True-prefix", got != want,
+                    f"{s!r}: lexer gives {got}, Python's tokenizer {want}"))
+    return out
+
 # }}}
 
 
@@ -632,6 +645,7 @@ PROP = Prop(
     lean_targets=["PV.Properties.C07"],
     extractors=[extract],
     streams=[Skeletons(), Importer(), SkeletonStrings(), LexShared()],
+    probes=[probe_true_prefix],
     trusted_base=["Lean 4.33 kernel; axioms propext, Classical.choice, Quot.sound only",
                   "CPython's ast.parse is the reference for Python's grouping (harness/props/c07.py: py_tree)",
                   "the lexer is modelled (PV/Model/Lexer.lean, regenerated rule table); Python's own "
